@@ -4,6 +4,7 @@
 #include <stdexcept>
 #include <algorithm>
 #include <cstring>
+#include <cstdint>
 
 namespace OP2Utility
 {
@@ -100,6 +101,15 @@ namespace OP2Utility
 			}
 
 			throw std::runtime_error("Unknown image header size of " + StringUtility::StringFrom(headerSize) + " detected. Header size must be equal to " + std::to_string(sizeof(ImageHeader)));
+		}
+
+		// Note: A negative width wraps around in the pitch calculation, and INT32_MIN has no absolute value
+		if (width < 0) {
+			throw std::runtime_error("Image width may not be negative. Width is " + std::to_string(width));
+		}
+
+		if (height == INT32_MIN) {
+			throw std::runtime_error("Image height of " + std::to_string(height) + " is out of range");
 		}
 
 		if (planes != DefaultPlanes) {
